@@ -146,6 +146,12 @@ class Cx:
             raise AnchorLost(f"coroutine of async fn {fn_path} not found")
         return c
 
+    def impl_method(self, type_name, trait_name, method):
+        bs = self.prog.impl_methods(type_name, trait_name, method)
+        if len(bs) != 1:
+            raise AnchorLost(f"impl method <{type_name} as {trait_name}>::{method}: found {len(bs)}")
+        return bs[0]
+
     def adt(self, path):
         a = self.prog.adts.get(path)
         if a is None:
